@@ -1,21 +1,68 @@
-import NanoVerif.Proofs.ProgramRestate
+import NanoVerif.Proofs.ProgramStart
 import Mathlib.Algebra.Order.Field.Rat
 import Mathlib.Tactic.NormNum
 import Mathlib.Analysis.Real.Sqrt
 /-!
   C04 — LP/QP interior point: `converged` means feasible and optimal as stated.
 
-  Property theorems about `Model/Program.lean` (the model of `src/program/solver.cpp`), for every linear ordered field
-  `α` (exact arithmetic), every program, every point, every answer of the oracles (Newton step, row reduction).
+  Property theorems about `Model/Program.lean`, `Model/ProgramNewton.lean`, `Model/ProgramSolve.lean` (the model of
+  `src/program/solver.cpp` and the files it uses), for every linear ordered field `α` (exact arithmetic), every program,
+  every point, every answer of the oracles (Newton step, row reduction, least-squares start).
   Conventions of the statements:
   * vectors are lists, `LeV` is componentwise `≤` between vectors of equal length, `Feasible P x` is `A x = b ∧ G x ≤ h`,
     `IsArgmin P x` says `x` minimises the objective over the feasible set;
   * `WF P`: every row of `Q, A, G` has `n = |c|` entries and `Q` is empty (LP) or has `n` rows; the length hypotheses on
-    `x, u, v, dx, …` are the shapes the C++ code allocates;
+    `x, u, v, dx, …` are the shapes the C++ code allocates (`NewtonShapes`: the oracle answers with `dx ∈ ℝⁿ, du ∈ ℝᵐ, dv ∈ ℝᵖ`);
   * `Convex P`: the form `a, b ↦ a·(Q b)` is symmetric and positive semidefinite on vectors of length `n`
     (the solver does not check it; `quadratic_program_t::convex()` is the caller's business);
-  * `min_norm > 0`, `0 < s0 < 1`, `0 ≤ beta ≤ 1`, `0 < numeric_limits::max()` are the constants / parameter domains of
-    the code; `sqrt` is an arbitrary function unless a hypothesis says what is used of it.
+  * `min_norm > 0` and `ParOk par` (`0 < s0 < 1`, `0 ≤ beta ≤ 1`, `0 < numeric_limits::max()`) are the constants / parameter
+    domains of the code; `sqrt` is an arbitrary function unless a hypothesis says what is used of it.
+
+  GAP TABLE — every function of the anchored files (modelled = hand-written Lean definition run against the code by
+  `driver_c04`; translated = regenerated into `Gen/ProgramDone.lean` on every check; oracle = parameter of the model with
+  the stated contract; outside = not in the model, with the reason):
+
+  src/program/solver.cpp
+    make_x0                              modelled    `makeX0`
+    make_smax                            modelled    `makeSmax`, `smaxLoop`
+    ::normalize                          modelled    `normDenom`, `normalizePair`
+    reducer_t, program_t::program_t      modelled    `prepare` (= reduce, then `normalize`), constant blocks of `m_lmat` in `kktMat`
+    program_t::n / p / m / Q             modelled    `Prog.n / p / m`, `Prog.Q`
+    program_t::feasible                  translated  `feasible`
+    program_t::solve                     modelled    `topLeftOf`, `kktMat`, `kktVecOf`;  `m_ldlt.compute/solve` = ORACLE, contract
+                                                     `kktMat · lsol = kktVec` (`newton_solution_is_newton_direction`,
+                                                     `noineq_exact_solution_optimal`); monitored at run time on every logged step
+    program_t::update                    modelled    `objective`, `gradObj`, `update`
+    solver_t::solver_t                   outside     parameter registration is C19; the domains enter as `ParOk`, the values as `Params`
+    solver_t::solve (4 overloads)        modelled    `solveTop`
+    solver_t::solve_with_inequality      modelled    `start`, `hessvar`, `newtonRhs`, `duOf`, `stage1`, `stage2`, `stage2Fail`,
+                                                     `iterate`, `exitKind`, `loop`, `solveIneq`; `m_ldlt_rcond / m_ldlt_positive`
+                                                     outside (read from Eigen, only printed)
+    solver_t::solve_without_inequality   modelled    `kktTopLeft0`, `kktVec0`, `kktApprox`, `noineq`, `solveNoineq`
+    solver_t::done                       translated  `doneStatus` (+ `done`)
+  src/program/state.cpp
+    solver_state_t ctors                 modelled    the `nan` fill of `start` / `solveIneq`
+    solver_state_t::residual             modelled    `residual`
+    solver_state_t::update (m_kkt)       modelled    `cabs`, `normInf`, `lagGrad`, `kktTest` (`kkt_test_le_iff`)
+    operator<<                           outside     printing
+  src/program/util.cpp
+    ::reduce(A), program::reduce(A, b)   oracle      Eigen FullPivLU; contract `RowEquiv` (same row space of `[A|b]`) ⇒ same solutions
+                                                     (`reduce_contract_same_solutions`, `prepared_same_feasible_set`); the contract is
+                                                     checked at run time on every call (python monitor: exact rank, residuals)
+    is_psd                               outside     not called by the solver (convexity is a hypothesis, `Convex`)
+  src/program/constrained.cpp
+    linear_constrained_t::feasible       outside     not called by the solver; the python oracle evaluates feasibility itself
+    make_strictly_feasible               modelled    `msfEval`, `msfLoop`, `makeStrictlyFeasible`; the LDLT solve of the normal equations
+                                                     is an ORACLE without contract (`default_start_strictly_feasible` holds for every answer)
+  src/program/linear.cpp, quadratic.cpp
+    constructors                         modelled    `Prog` (an LP has `Q = []`);  make_Q (upper-triangular input) outside: not used here
+  include/nano/program/stack.h
+    update_size, update_data, make_size, stack   outside  template plumbing that copies the caller's blocks; covered by the correspondence
+                                                     (the harness states every program through `constrain(...)`, the model normalises
+                                                     the stated data itself and must reproduce the logged normalised `A, b, G, h`)
+  include/nano/program/equality.h, inequality.h
+    make_equality / make_inequality      outside     constructors used by the harness (same remark)
+    feasible / deviation, make_less / make_greater   outside   not called by the solver
 -/
 set_option linter.unusedSectionVars false
 set_option linter.unusedVariables false
@@ -272,6 +319,240 @@ theorem restatement_equiv_perm_vars (P : Prog α) (wf : WF P) (idx : List Nat) (
       objective (permVars idx P) (pick 0 idx x) = objective P x :=
   perm_vars_equiv P wf idx hidx x hx
 
+/-! ### the Newton step: the linear system handed to LDLT -/
+
+/-- Contract of the LDLT oracle ⇒ Newton direction. If `(dx, dv)` solves the system `m_lmat · z = m_lvec` the code
+    assembles (`kktMat`, `kktVec`) EXACTLY, and `du` is what the code computes from `dx`, then `(dx, du, dv)` is the
+    Newton direction of the residual map at `(x, u, v)`:
+    * the dual residual (affine) satisfies `rdual(x + s dx, u + s du, v + s dv) = (1 − s) rdual(x, u, v)` for every `s`,
+    * so does the primal residual `A x − b`,
+    * and `u ∘ (G dx) + (G x − h) ∘ du = rcent` (the centrality residual linearised at fixed `η / (μ m)`),
+    i.e. `r + J·Δ = 0` block by block. -/
+theorem newton_solution_is_newton_direction (P : Prog α) (wf : WF P) (mufx miu : α) (x u v dx dv : List α)
+    (st0 st1 : St α) (hG : P.G ≠ []) (hx : x.length = P.n) (hdx : dx.length = P.n) (hu : u.length = P.G.length)
+    (hv : v.length = P.A.length) (hdv : dv.length = P.A.length) (hh : P.h.length = P.G.length)
+    (hint : ∀ a ∈ slack P x, a < 0)
+    (hsol : mv (kktMat P (kktTopLeft P x u)) (dx ++ dv) = kktVec P x (update P mufx miu x u v st0)) :
+    (∀ s, (update P mufx miu (move x s dx) (move u s (duOf P x u dx (update P mufx miu x u v st0))) (move v s dv) st1).rdual =
+        smul (1 - s) (update P mufx miu x u v st0).rdual) ∧
+    (P.A ≠ [] → ∀ s, vsub (mv P.A (move x s dx)) P.b = smul (1 - s) (vsub (mv P.A x) P.b)) ∧
+    vadd (hmul u (mv P.G dx)) (hmul (slack P x) (duOf P x u dx (update P mufx miu x u v st0))) =
+      (update P mufx miu x u v st0).rcent := by
+  have hrd := update_rdual_length P wf mufx miu x u v st0 hx
+  obtain ⟨e1, e2⟩ := kkt_system_blocks P wf (hessvar P x u) (hessvar_rows P wf x u) (hessvar_length P wf x u)
+    (newtonRhs P x (update P mufx miu x u v st0))
+    (by simp [newtonRhs, hrd, tmv_length _ _ _ wf.Grows]) dx dv hdx hsol
+  refine ⟨fun s => newton_rdual P wf mufx miu x u v dx dv st0 st1 s hG hx hdx hu hv hdv hh e1, ?_,
+    newton_rcent P mufx miu x u v dx st0 hG hu hh (fun a ha => ne_of_lt (hint a ha))⟩
+  intro hA s
+  have hA' : P.A.isEmpty = false := by cases h : P.A <;> simp_all
+  apply newton_rprim x dx s (by rw [hx, hdx])
+  rw [e2]
+  simp [newtonRhs, update_rprim, hA']
+
+/-- The equality-only path: an EXACT solution `(x, v)` of the system `[[Q, Aᵀ], [A, 0]] (x, v) = (−c, b)` the code assembles
+    is a minimiser of the (convex) program. -/
+theorem noineq_exact_solution_optimal (P : Prog α) (wf : WF P) (cvx : Convex P) (x v : List α) (hG : P.G = [])
+    (hh : P.h = [])
+    (hx : x.length = P.n) (hv : v.length = P.A.length)
+    (hsol : mv (kktMat P (kktTopLeft0 P)) (x ++ v) = kktVec0 P) :
+    Feasible P x ∧ ∀ y : List α, y.length = P.n → Feasible P y → objective P x ≤ objective P y := by
+  obtain ⟨e1, e2⟩ := noineq_exact P wf 1 1 x v ⟨0, 0, [], [], []⟩ hG hx hv hsol
+  refine ⟨⟨e2, by simp [hG, hh, mv]⟩, fun y hyl hy => ?_⟩
+  have key := gap_bound P wf cvx 1 1 x [] v y ⟨0, 0, [], [], []⟩ hx hyl (by simp [hG]) hv (fun _ => rfl) (by simp) hy
+  rw [update_eta, update_rprim, e1] at key
+  have hz : vsub (mv P.A x) P.b = zeros P.A.length ∨ P.A.isEmpty = true := by
+    left
+    rw [e2]
+    have : ∀ b : List α, vsub b b = zeros b.length := by
+      intro b; induction b with
+      | nil => rfl
+      | cons a b ih => simp only [vsub, List.zipWith_cons_cons, sub_self] at ih ⊢; rw [ih]; simp [zeros, List.replicate_succ]
+    rw [this]
+    congr 1
+    rw [← e2]; simp
+  simp only [hG, List.isEmpty_nil, if_true] at key
+  rw [dot_zeros] at key
+  rcases hz with hz | hz
+  · by_cases hA : P.A.isEmpty
+    · simp only [hA, if_true, dot_nil_right] at key
+      simp at key; linarith
+    · simp only [hA, if_false, Bool.false_eq_true, hz] at key
+      rw [dot_comm, dot_zeros] at key
+      simp at key; linarith
+  · simp only [hz, if_true, dot_nil_right] at key
+    simp at key; linarith
+
+/-! ### every exit of the solver, with the status it reports -/
+
+/-- Complete case split of one pass through the loop body of `solve_with_inequality` (six exits, `ExitKind`): unstable
+    linear system / stage 1 failed (→ `done` on the unchanged state), stage 2 failed (→ state reverted to `(x, u, v)`, `done`),
+    non-finite residuals after the step (→ `failed`), no further progress (→ `done` at the new point), continue. -/
+theorem iterate_exit_cases [Sqrt α] [FinTest α] (P : Prog α) (mufx : α) (par : Params α) (x u v : List α) (st : St α)
+    (ok : Bool) (dx du dv : List α) :
+    (ok = false ∧ exitKind P mufx par x u v st ok dx du dv = .unstable ∧
+      iterate P mufx par x u v st ok dx du dv = .stop (done P par x st) x u v st) ∨
+    (ok = true ∧ stage1 P par.beta x dx par.maxLs (par.s0 * makeSmax par.big u du) = none ∧
+      exitKind P mufx par x u v st ok dx du dv = .stage1Failed ∧
+      iterate P mufx par x u v st ok dx du dv = .stop (done P par x st) x u v st) ∨
+    (∃ s1 stT, ok = true ∧ stage1 P par.beta x dx par.maxLs (par.s0 * makeSmax par.big u du) = some s1 ∧
+      stage2 P mufx par.miu par.alpha par.beta x u v dx du dv (residual st) par.maxLs s1 st = (none, stT) ∧
+      exitKind P mufx par x u v st ok dx du dv = .stage2Failed ∧
+      iterate P mufx par x u v st ok dx du dv =
+        .stop (done P par x (update P mufx par.miu x u v stT)) x u v (update P mufx par.miu x u v stT)) ∨
+    (∃ s1 s2 st2, ok = true ∧ stage1 P par.beta x dx par.maxLs (par.s0 * makeSmax par.big u du) = some s1 ∧
+      stage2 P mufx par.miu par.alpha par.beta x u v dx du dv (residual st) par.maxLs s1 st = (some s2, st2) ∧
+      ((finAfter st2 = false ∧ exitKind P mufx par x u v st ok dx du dv = .nonFinite ∧
+          iterate P mufx par x u v st ok dx du dv = .stop .failed (move x s2 dx) (move u s2 du) (move v s2 dv) st2) ∨
+       (finAfter st2 = true ∧ noProgressTest par st st2 ∧ exitKind P mufx par x u v st ok dx du dv = .noProgress ∧
+          iterate P mufx par x u v st ok dx du dv =
+            .stop (done P par (move x s2 dx) st2) (move x s2 dx) (move u s2 du) (move v s2 dv) st2) ∨
+       (finAfter st2 = true ∧ ¬ noProgressTest par st st2 ∧ exitKind P mufx par x u v st ok dx du dv = .continues ∧
+          iterate P mufx par x u v st ok dx du dv = .next (move x s2 dx) (move u s2 du) (move v s2 dv) st2))) :=
+  iterate_cases P mufx par x u v st ok dx du dv
+
+/-- The status of a stopping exit, as equivalences: `converged` ⇔ the exit is not the non-finite one and the returned
+    point passes `program_t::feasible` with `eta, ‖rdual‖₂, ‖rprim‖₂ < epsilon` of the RETURNED state (in particular the
+    'no further progress' exit does not accept `converged` from `eta` alone); `unbounded` ⇔ feasible but not ε-KKT;
+    `unfeasible` ⇔ the feasibility test fails (the two heuristics of `solver_t::done`); `failed` ⇔ non-finite exit. -/
+theorem iterate_status_iff [Sqrt α] [FinTest α] (P : Prog α) (mufx : α) (par : Params α) (x u v : List α) (st : St α)
+    (ok : Bool) (dx du dv : List α) (status : Status) (x' u' v' : List α) (st' : St α)
+    (h : iterate P mufx par x u v st ok dx du dv = .stop status x' u' v' st') :
+    (status = .converged ↔ exitKind P mufx par x u v st ok dx du dv ≠ .nonFinite ∧ feasible P par.eps2 x' = true ∧
+        st'.eta < par.epsilon ∧ norm2 st'.rdual < par.epsilon ∧ norm2 st'.rprim < par.epsilon) ∧
+    (status = .unbounded ↔ exitKind P mufx par x u v st ok dx du dv ≠ .nonFinite ∧ feasible P par.eps2 x' = true ∧
+        ¬ (st'.eta < par.epsilon ∧ norm2 st'.rdual < par.epsilon ∧ norm2 st'.rprim < par.epsilon)) ∧
+    (status = .unfeasible ↔ exitKind P mufx par x u v st ok dx du dv ≠ .nonFinite ∧ feasible P par.eps2 x' = false) ∧
+    (status = .failed ↔ exitKind P mufx par x u v st ok dx du dv = .nonFinite) ∧ status ≠ .maxIters :=
+  iterate_converged_iff P mufx par x u v st ok dx du dv status x' u' v' st' h
+
+/-- A starting point is refused — `unfeasible` at once, `m_iters = 0`, `m_x = x0` — exactly when it is not strictly inside
+    the inequalities (`∃ i, (G x0 − h)ᵢ ≥ 0`), whether or not the program is feasible. -/
+theorem solve_refused_start_iff [Sqrt α] [FinTest α] (P : Prog α) (mufx : α) (par : Params α) (nan : α) (newton : Newton α)
+    (x0 : List α) (hne : slack P x0 ≠ []) :
+    (start P mufx par.miu nan x0 = none ↔ ∃ a ∈ slack P x0, 0 ≤ a) ∧
+    (start P mufx par.miu nan x0 = none → (solveIneq P mufx par nan newton x0).status = .unfeasible ∧
+      (solveIneq P mufx par nan newton x0).iters = 0 ∧ (solveIneq P mufx par nan newton x0).x = x0) := by
+  refine ⟨?_, solveIneq_refused P mufx par nan newton x0⟩
+  rw [start_none_iff]
+  exact ⟨fun h => h.resolve_left hne, Or.inr⟩
+
+/-- Every exit of `solve_with_inequality` after an accepted start, for every Newton oracle and every `max_iters`:
+    the returned `(x, u, v)` has `G x < h`, `u > 0`, and the returned `fx, eta, rdual, rprim, rcent` are those of the returned
+    point (`Inv`); the status is `max_iters` with `m_iters = max_iters` after `max_iters` continuing iterations, or iteration
+    `m_iters < max_iters` took a stopping exit whose status (`iterate_status_iff`) and state are returned. -/
+theorem solve_exits [Sqrt α] [FinTest α] (P : Prog α) (mufx : α) (par : Params α) (pok : ParOk par) (nan : α)
+    (newton : Newton α) (hsh : NewtonShapes P newton) (x0 u0 v0 : List α) (st0 : St α) (hx0 : x0.length = P.n)
+    (hh : P.h.length = P.G.length) (hs : start P mufx par.miu nan x0 = some (u0, v0, st0)) :
+    Inv P mufx par.miu (solveIneq P mufx par nan newton x0).x (solveIneq P mufx par nan newton x0).u
+        (solveIneq P mufx par nan newton x0).v (solveIneq P mufx par nan newton x0).st ∧
+    (((solveIneq P mufx par nan newton x0).status = .maxIters ∧ (solveIneq P mufx par nan newton x0).iters = par.maxIters ∧
+        Reaches P mufx par newton 0 x0 u0 v0 st0 par.maxIters (solveIneq P mufx par nan newton x0).x
+          (solveIneq P mufx par nan newton x0).u (solveIneq P mufx par nan newton x0).v (solveIneq P mufx par nan newton x0).st) ∨
+     (∃ j xj uj vj stj, j < par.maxIters ∧ Reaches P mufx par newton 0 x0 u0 v0 st0 j xj uj vj stj ∧
+        Inv P mufx par.miu xj uj vj stj ∧ (solveIneq P mufx par nan newton x0).iters = j ∧
+        iterate P mufx par xj uj vj stj (newton j xj uj vj stj).1 (newton j xj uj vj stj).2.1 (newton j xj uj vj stj).2.2.1
+          (newton j xj uj vj stj).2.2.2 =
+          .stop (solveIneq P mufx par nan newton x0).status (solveIneq P mufx par nan newton x0).x
+            (solveIneq P mufx par nan newton x0).u (solveIneq P mufx par nan newton x0).v
+            (solveIneq P mufx par nan newton x0).st)) :=
+  solveIneq_exits P mufx par pok nan newton hsh x0 u0 v0 st0 hx0 hh hs
+
+/-- `converged` from the whole `solve_with_inequality` is truthful about the returned state. -/
+theorem solve_converged_sound [Sqrt α] [FinTest α] (P : Prog α) (mufx : α) (par : Params α) (pok : ParOk par) (nan : α)
+    (newton : Newton α) (hsh : NewtonShapes P newton) (x0 : List α) (hx0 : x0.length = P.n)
+    (hh : P.h.length = P.G.length) (hc : (solveIneq P mufx par nan newton x0).status = .converged) :
+    Inv P mufx par.miu (solveIneq P mufx par nan newton x0).x (solveIneq P mufx par nan newton x0).u
+        (solveIneq P mufx par nan newton x0).v (solveIneq P mufx par nan newton x0).st ∧ P.G ≠ [] ∧
+    feasible P par.eps2 (solveIneq P mufx par nan newton x0).x = true ∧
+    (solveIneq P mufx par nan newton x0).st.eta < par.epsilon ∧
+    norm2 (solveIneq P mufx par nan newton x0).st.rdual < par.epsilon ∧
+    norm2 (solveIneq P mufx par nan newton x0).st.rprim < par.epsilon :=
+  solveIneq_converged_sound P mufx par pok nan newton hsh x0 hx0 hh hc
+
+/-- END TO END, no hypothesis about the run other than its answer: whenever `solve_with_inequality` — on the normalised
+    program, with ANY Newton oracle, any starting point, any `max_iters`, through any exit — reports `converged`, the
+    returned point satisfies, in the caller's units and against every point `x*` feasible for the CALLER's convex program,
+    `f(x) − f(x*) ≤ mufx · ε · (1 + ‖x − x*‖₂ + ‖v‖₁)`, `mufx = max(min_norm, ‖Q‖_F, ‖c‖₂)`.
+    (The hypotheses `u ≥ 0`, "the residuals are those of the returned point", `eta, ‖rdual‖, ‖rprim‖ < ε` of
+    `converged_gap_bound` are discharged by the loop invariant and the exit analysis.) -/
+theorem solve_converged_gap_bound [Sqrt α] [FinTest α]
+    (hsqrt : ∀ y : α, 0 ≤ y → 0 ≤ Sqrt.sqrt y ∧ Sqrt.sqrt y * Sqrt.sqrt y = y)
+    (P0 : Prog α) (wf : WF P0) (cvx : Convex P0) (par : Params α) (pok : ParOk par) (hmin : 0 < par.minNorm) (nan : α)
+    (newton : Newton α) (hsh : NewtonShapes (normalize par.minNorm P0).2 newton) (x0 xs : List α)
+    (hx0 : x0.length = P0.n) (hxs : xs.length = P0.n) (hh : P0.h.length = P0.G.length) (hfeas : Feasible P0 xs)
+    (hc : (solveIneq (normalize par.minNorm P0).2 (normalize par.minNorm P0).1 par nan newton x0).status = .converged) :
+    objective P0 (solveIneq (normalize par.minNorm P0).2 (normalize par.minNorm P0).1 par nan newton x0).x - objective P0 xs ≤
+      (normalize par.minNorm P0).1 * (par.epsilon * (1 +
+        norm2 (vsub (solveIneq (normalize par.minNorm P0).2 (normalize par.minNorm P0).1 par nan newton x0).x xs) +
+        norm1 (solveIneq (normalize par.minNorm P0).2 (normalize par.minNorm P0).1 par nan newton x0).v)) := by
+  have hn := normalize_n par.minNorm P0
+  have hGl : (normalize par.minNorm P0).2.G.length = P0.G.length := by simp [normalize, normalizePair]
+  have hAl : (normalize par.minNorm P0).2.A.length = P0.A.length := by simp [normalize, normalizePair]
+  have hhl : (normalize par.minNorm P0).2.h.length = P0.h.length := by simp [normalize, normalizePair]
+  obtain ⟨⟨i1, i2, i3, _, i5, ⟨stq, i6⟩⟩, hG, _, f2, f3, f4⟩ :=
+    solveIneq_converged_sound (normalize par.minNorm P0).2 (normalize par.minNorm P0).1 par pok nan newton hsh x0
+      (by rw [hn, hx0]) (by rw [hhl, hGl, hh]) hc
+  rw [i6] at f2 f3 f4
+  have hG0 : P0.G ≠ [] := by
+    intro h0
+    apply hG
+    apply List.length_eq_zero_iff.mp
+    rw [hGl, h0]; rfl
+  exact gap_bound_converged hsqrt par.minNorm hmin P0 wf cvx par.miu par.epsilon _ _ _ xs stq (by rw [i1, hn])
+    hxs (by rw [i2, hGl]) (by rw [i3, hAl]) (fun h => absurd h hG0) (fun a ha => le_of_lt (i5 a ha)) hfeas f2 f3 f4
+
+/-! ### `reduce`, the starting point, the KKT test -/
+
+/-- Contract of `program::reduce` ⇒ nothing is lost: rows `[A'|b']` with the row space of `[A|b]` have the same solution
+    set, consistent or not. -/
+theorem reduce_contract_same_solutions (n : Nat) (A : List (List α)) (b : List α) (A' : List (List α)) (b' x : List α)
+    (hA : ∀ r ∈ A, r.length = n) (hA' : ∀ r ∈ A', r.length = n) (hx : x.length = n) (h : RowEquiv n A b A' b') :
+    mv A' x = b' ↔ mv A x = b :=
+  reduce_same_solutions n A b A' b' x hA hA' hx h
+
+/-- … so the program the solver works on (`program_t::program_t`: reduce, then three normalisations) has exactly the
+    caller's feasible set, and its objective is the caller's divided by `mufx > 0`. -/
+theorem prepared_same_feasible_set [Sqrt α] (minNorm : α) (hmin : 0 < minNorm) (P0 : Prog α) (wf : WF P0)
+    (reduce : List (List α) → List α → List (List α) × List α)
+    (hrows : ∀ r ∈ (reduce P0.A P0.b).1, r.length = P0.n)
+    (hc : RowEquiv P0.n P0.A P0.b (reduce P0.A P0.b).1 (reduce P0.A P0.b).2) (x : List α) (hx : x.length = P0.n) :
+    (Feasible (prepare minNorm reduce P0).2 x ↔ Feasible P0 x) ∧
+    objective (prepare minNorm reduce P0).2 x = objective P0 x / (prepare minNorm reduce P0).1 ∧
+    0 < (prepare minNorm reduce P0).1 :=
+  ⟨prepare_same_feasible minNorm hmin P0 wf reduce hrows hc x hx, prepare_objective minNorm hmin P0 reduce x⟩
+
+/-- The default start: whatever the least-squares oracle answers, a point returned by `make_strictly_feasible` is strictly
+    inside the caller's inequalities, and the solver (which tests the NORMALISED inequalities) does not refuse it;
+    when no point is found `make_x0` hands over the origin. -/
+theorem default_start_strictly_feasible [Sqrt α] (minNorm : α) (hmin : 0 < minNorm) (P : Prog α) (gamma : α) (rounds : Nat)
+    (lsq : α → List α) (mufx miu nan : α) :
+    (∀ x, makeStrictlyFeasible P gamma rounds lsq = some x → makeX0 P gamma rounds lsq = x ∧ (∀ a ∈ slack P x, a < 0) ∧
+      (slack P x ≠ [] → start (normalize minNorm P).2 mufx miu nan x ≠ none)) ∧
+    (makeStrictlyFeasible P gamma rounds lsq = none → makeX0 P gamma rounds lsq = zeros P.n) := by
+  constructor
+  · intro x hx
+    have hi := (makeStrictlyFeasible_some P gamma rounds lsq x hx).1
+    refine ⟨by simp [makeX0, hx], hi, fun hne => (start_accepts_iff minNorm hmin P mufx miu nan x hne).2 hi⟩
+  · intro h
+    simp [makeX0, h]
+
+/-- A user `x0` is accepted exactly when it is strictly inside the CALLER's inequalities (normalisation does not move the
+    boundary); otherwise the answer is `unfeasible` (`solve_refused_start_iff`). -/
+theorem user_start_accepted_iff [Sqrt α] (minNorm : α) (hmin : 0 < minNorm) (P : Prog α) (mufx miu nan : α) (x0 : List α)
+    (hne : slack P x0 ≠ []) :
+    start (normalize minNorm P).2 mufx miu nan x0 ≠ none ↔ ∀ a ∈ slack P x0, a < 0 :=
+  start_accepts_iff minNorm hmin P mufx miu nan x0 hne
+
+/-- `m_kkt ≤ ε` ⇔ each of the KKT conditions `solver_state_t::update` evaluates holds within `ε`. As coded, the
+    stationarity test `|∇f(x) + Aᵀv + Gᵀu|∞` is part of it only when the program has at least one constraint (`kktTest`). -/
+theorem kkt_test_le_iff (P : Prog α) (x u v : List α) (eps : α) :
+    kktTest P x u v ≤ eps ↔ 0 ≤ eps ∧
+      (P.G ≠ [] → (∀ a ∈ slack P x, a ≤ eps) ∧ (∀ a ∈ u, -a ≤ eps) ∧ ∀ a ∈ hmul u (slack P x), |a| ≤ eps) ∧
+      (P.A ≠ [] → ∀ a ∈ vsub (mv P.A x) P.b, |a| ≤ eps) ∧
+      (P.G ≠ [] ∨ P.A ≠ [] → ∀ a ∈ lagGrad P x u v, |a| ≤ eps) :=
+  kktTest_le_iff P x u v eps
+
 /-! ### non-vacuity: `min ½x₀² + 3x₁  s.t.  x₀ + x₁ = 1,  −x₁ ≤ 0`, optimum `x* = (1, 0)`, `u* = 2`, `v* = −1` -/
 
 def exP (α : Type) [Field α] : Prog α := ⟨[[1, 0], [0, 0]], [0, 3], [[1, 1]], [1], [[0, -1]], [0]⟩
@@ -313,6 +594,79 @@ example : doneStatus true (1 / 10 : ℚ) (1 / 10) (1 / 10) (1 / 5) = .converged 
     doneStatus false (1 / 10 : ℚ) (1 / 10) (1 / 10) (1 / 5) = .unfeasible := by
   refine ⟨?_, ?_, ?_⟩ <;> norm_num [doneStatus, cmax3, cmax]
 
+/-! ### non-vacuity of the gap-closing theorems -/
+
+/-- `min x  s.t.  −x ≤ 0` at `x = 1, u = 1`: the system the code assembles is `[1]·dx = −9/10`; its solution is the Newton
+    direction (hypotheses of `newton_solution_is_newton_direction`) -/
+def exL (α : Type) [Field α] : Prog α := ⟨[], [1], [], [], [[-1]], [0]⟩
+
+example : mv (kktMat (exL ℚ) (kktTopLeft (exL ℚ) [1] [1])) ([-9 / 10] ++ []) =
+    kktVec (exL ℚ) [1] (update (exL ℚ) 1 10 [1] [1] [] ⟨0, 0, [], [], []⟩) := by
+  norm_num [exL, kktMat, kktTopLeft, topLeftOf, hessvar, mmul, transp, rowScale, vdivE, slack, mv, dot, vsub, smul, tmv, axpy,
+    zeros, mneg, vneg, kktVec, kktVecOf, newtonRhs, update, gradObj, vadd, Prog.n, Prog.m, Prog.p, List.replicate]
+
+example : WF (exL ℚ) ∧ (∀ a ∈ slack (exL ℚ) [1], a < 0) := by
+  refine ⟨by constructor <;> simp [exL, Prog.n], ?_⟩
+  norm_num [exL, slack, mv, dot, vsub]
+
+/-- `min ½x² − x` without constraints: the system is `[1]·x = 1` (hypotheses of `noineq_exact_solution_optimal`) -/
+example : mv (kktMat (⟨[[1]], [-1], [], [], [], []⟩ : Prog ℚ) (kktTopLeft0 ⟨[[1]], [-1], [], [], [], []⟩)) ([1] ++ []) =
+    kktVec0 (⟨[[1]], [-1], [], [], [], []⟩ : Prog ℚ) := by
+  norm_num [kktMat, kktTopLeft0, topLeftOf, zeroM, msub, vsub, zeros, transp, mv, dot, kktVec0, kktVecOf, vneg, Prog.n, Prog.p,
+    List.replicate]
+
+section runQ
+/-- for the runs below `sqrt` and `isfinite` may be anything: the theorems about exits and statuses do not use them -/
+local instance : Sqrt ℚ := ⟨fun x => x⟩
+local instance : FinTest ℚ := ⟨fun _ => true⟩
+
+def exPar : Params ℚ := ⟨1 / 1000, 1 / 100000000, 1000000, 99 / 100, 10, 1 / 100, 9 / 10, 2, 0, 3, 5⟩
+/-- an oracle that declares every system unstable: the first iteration leaves through `done` -/
+def exNewton : Newton ℚ := fun _ _ _ _ _ => (false, [0], [0], [])
+
+theorem exPar_ok : ParOk exPar := by constructor <;> norm_num [exPar]
+theorem exNewton_shapes : NewtonShapes (exL ℚ) exNewton := by intro k x u v st; simp [exNewton, exL, Prog.n]
+
+/-- `solve_with_inequality` on `min x s.t. −x ≤ 0` from `x0 = 1` with `epsilon = 2` reports `converged`
+    (the hypothesis of `solve_converged_sound`, an exit of `solve_exits`, a `.stop` for `iterate_status_iff`) -/
+example : (solveIneq (exL ℚ) 1 exPar 0 exNewton [1]).status = .converged := by
+  norm_num [solveIneq, start, slack, exL, mv, dot, vsub, maxCoeff, update, gradObj, objective, vadd, tmv, axpy, zeros, Prog.n,
+    Prog.m, Prog.p, loop, exPar, exNewton, iterate, done, doneStatus, feasible, maxLt, cmax3, cmax, norm2, sumsq, Sqrt.sqrt,
+    exitKind, List.replicate]
+
+/-- a refused start: `x0 = −1` violates `−x ≤ 0` -/
+example : start (exL ℚ) 1 10 0 [-1] = none := by
+  norm_num [start, slack, exL, mv, dot, vsub, maxCoeff]
+end runQ
+
+/-- `reduce` contract: `{x = 1, 2x = 2}` and `{x = 1}` have the same row space -/
+example : RowEquiv 1 ([[1], [2]] : List (List ℚ)) [1, 2] [[1]] [1] := by
+  refine ⟨⟨rfl, ?_⟩, ⟨rfl, ?_⟩⟩
+  · intro p hp
+    simp only [List.zip_cons_cons, List.zip_nil_right, List.mem_singleton] at hp
+    subst hp
+    exact ⟨[1, 0], by norm_num [tmv, axpy, zeros, List.replicate], by norm_num [dot]⟩
+  · intro p hp
+    simp only [List.zip_cons_cons, List.zip_nil_right, List.mem_cons, List.mem_nil_iff, or_false] at hp
+    rcases hp with rfl | rfl
+    · exact ⟨[1], by norm_num [tmv, axpy, zeros, List.replicate], by norm_num [dot]⟩
+    · exact ⟨[2], by norm_num [tmv, axpy, zeros, List.replicate], by norm_num [dot]⟩
+
+/-- `make_strictly_feasible` on `x ≤ 0` with the exact least-squares answer `x = −y`: the first trial `y = 1` succeeds -/
+example : makeStrictlyFeasible (⟨[], [1], [], [], [[1]], [0]⟩ : Prog ℚ) (3 / 10) 50 (fun y => [-y]) = some [-1] := by
+  norm_num [makeStrictlyFeasible, msfLoop, msfEval, maxLt, maxCoeff, slack, mv, dot, vsub]
+
+/-- a program without any constraint: `m_kkt = 0` at a point that is NOT stationary (`min ½(x+y)² + x + 3y`, Q singular, at `(−1, 0)`:
+    `Q x + c = (0, 2)`), replayed on the code by the corpus line "m_kkt without stationarity" -/
+example : kktTest (⟨[[1, 1], [1, 1]], [1, 3], [], [], [], []⟩ : Prog ℚ) [-1, 0] [] [] = 0 ∧
+    lagGrad (⟨[[1, 1], [1, 1]], [1, 3], [], [], [], []⟩ : Prog ℚ) [-1, 0] [] [] = [0, 2] := by
+  norm_num [kktTest, lagGrad, gradObj, mv, dot, vadd, tmv, zeros, Prog.n, List.replicate]
+
+/-- the KKT point of `exP` has `m_kkt = 0` -/
+example : kktTest (exP ℚ) [1, 0] [2] [-1] ≤ 0 := by
+  norm_num [kktTest, exP, slack, mv, dot, vsub, normInf, cmax, cabs, hmul, lagGrad, gradObj, vadd, tmv, axpy, zeros, Prog.n,
+    List.replicate]
+
 /-! the square-root hypothesis is satisfiable (ℝ), together with all the other hypotheses of the gap bounds -/
 section real
 noncomputable local instance : Sqrt ℝ := ⟨Real.sqrt⟩
@@ -340,6 +694,36 @@ example : ∃ eps : ℝ, objective (exP ℝ) [2, 1] - objective (exP ℝ) [1, 0]
   · exact lt_of_le_of_lt (le_trans (le_max_left _ _) (le_max_left _ _)) (lt_add_one _)
   · exact lt_of_le_of_lt (le_trans (le_max_right _ _) (le_max_left _ _)) (lt_add_one _)
   · exact lt_of_le_of_lt (le_max_right _ _) (lt_add_one _)
+
+/-! every hypothesis of the end-to-end theorem `solve_converged_gap_bound` holds for a run over ℝ (`min x s.t. −x ≤ 0`
+    from `x0 = 1`, `epsilon = 2`, an oracle that declares the first system unstable) -/
+noncomputable local instance : FinTest ℝ := ⟨fun _ => true⟩
+
+noncomputable def exParR : Params ℝ := ⟨1 / 1000, 1 / 100000000, 1000000, 99 / 100, 10, 1 / 100, 9 / 10, 2, 0, 3, 5⟩
+noncomputable def exNewtonR : Newton ℝ := fun _ _ _ _ _ => (false, [0], [0], [])
+
+theorem exL_norm : normalize exParR.minNorm (exL ℝ) = (1, exL ℝ) := by
+  norm_num [normalize, normalizePair, normDenom, exParR, exL, normF, norm2, sumsqM, sumsq, dot, Sqrt.sqrt, cmax3, cmax,
+    vdivs, Real.sqrt_zero, Real.sqrt_one]
+
+theorem exRun_converged :
+    (solveIneq (normalize exParR.minNorm (exL ℝ)).2 (normalize exParR.minNorm (exL ℝ)).1 exParR 0 exNewtonR [1]).status =
+      .converged := by
+  rw [exL_norm]
+  norm_num [solveIneq, start, slack, exL, mv, dot, vsub, maxCoeff, update, gradObj, objective, vadd, tmv, axpy, zeros, Prog.n,
+    Prog.m, Prog.p, loop, exParR, exNewtonR, iterate, done, doneStatus, feasible, maxLt, cmax3, cmax, norm2, sumsq, Sqrt.sqrt,
+    exitKind, List.replicate, Real.sqrt_zero]
+
+example : objective (exL ℝ)
+      (solveIneq (normalize exParR.minNorm (exL ℝ)).2 (normalize exParR.minNorm (exL ℝ)).1 exParR 0 exNewtonR [1]).x -
+      objective (exL ℝ) [0] ≤
+    (normalize exParR.minNorm (exL ℝ)).1 * (exParR.epsilon * (1 +
+      norm2 (vsub (solveIneq (normalize exParR.minNorm (exL ℝ)).2 (normalize exParR.minNorm (exL ℝ)).1 exParR 0 exNewtonR [1]).x [0]) +
+      norm1 (solveIneq (normalize exParR.minNorm (exL ℝ)).2 (normalize exParR.minNorm (exL ℝ)).1 exParR 0 exNewtonR [1]).v)) :=
+  solve_converged_gap_bound hsqrtReal (exL ℝ) (by constructor <;> simp [exL, Prog.n])
+    ⟨fun a b _ _ => by simp [exL, mv], fun d _ => by simp [exL, mv]⟩ exParR (by constructor <;> norm_num [exParR])
+    (by norm_num [exParR]) 0 exNewtonR (by intro k x u v st; simp [exNewtonR, exL, normalize, normalizePair, Prog.n])
+    [1] [0] rfl rfl rfl (by constructor <;> simp [exL, mv, dot, LeV]) exRun_converged
 end real
 
 end NanoVerif.Program
